@@ -190,6 +190,14 @@ def run_case(case, ctx):
         for f in (lambda: x + y, lambda: x - y, lambda: x * y, lambda: fm.add(x, y), lambda: fm.sub(y, x), lambda: fm.mul(x, y),
                   lambda: np.add(x, y), lambda: np.subtract(x, y), lambda: np.multiply(y, x)):
             _try(f)
+        # operands whose code was produced by storing a huge Python integer (saturated) - value dtype history must not matter
+        if i % 3 == 0 and wx < 64 and wy < 64:
+            xs_ = _try(lambda: Fxp(2 ** 80 if rng.random() < 0.7 else -2 ** 80, sx, wx, fx))
+            ys_ = _try(lambda: Fxp(None, sy, wy, fy))
+            if xs_ is not None and ys_ is not None:
+                _try(lambda: ys_(2 ** 90))
+                for f in (lambda: xs_ * ys_, lambda: xs_ + ys_, lambda: xs_ - ys_, lambda: xs_ * y, lambda: x + ys_, lambda: fm.mul(ys_, xs_)):
+                    _try(f)
         if rank:
             # elements obtained by indexing (their value is a NumPy scalar)
             for f in (lambda: x[1] * y[1], lambda: x[0] + y[1], lambda: x[1] - y[0], lambda: x[-1] * y, lambda: fm.mul(y[0], x[0])):
